@@ -272,3 +272,29 @@ package channeldb
 //@   ensures result2 == ErrLogEntryNotFound ==> ret(NestedReadBucket, 1) == nil || called(fetchOldRevocationLog)
 //@   site call fetchRevocationLog: assert arg(0) == ret(NestedReadBucket, 0) && arg(1) == updateNum
 //@   site call fetchOldRevocationLog: assert arg(0) == ret(NestedReadBucket, 1) && arg(1) == updateNum
+//@
+//@ // ---- the lease expiry / thaw height of a channel is written and read back under the SAME condition (frozen OR script-enforced lease):
+//@ // ---- a lease channel whose height is stored but not restored derives different to_local / to_remote / second-level scripts after a
+//@ // ---- reload than its peer, and every honest commitment signature is rejected
+//@ func putOpenChannel
+//@   props C01 C02
+//@   loop * havoc
+//@   site call storeThawHeight: assert arg(0) == chanBucket && arg(1) == channel.ThawHeight
+//@   ensures result == nil && (ret(IsFrozen) || ret(HasLeaseExpiration)) ==> called(storeThawHeight) && ret(storeThawHeight) == nil
+//@   site call IsFrozen: assert arg(0) == channel.ChanType
+//@   site call HasLeaseExpiration: assert arg(0) == channel.ChanType
+//@
+//@ // the static channel info is deserialized INTO the channel object through pointers boxed in interfaces (ReadElements); the generator's
+//@ // frame inference does not see those writes, so the fields the callers' contracts speak about are declared here (assumed, not checked)
+//@ func fetchChanInfo
+//@   props C01 C02
+//@   loop * havoc
+//@   modifies-assumed channel.ChanType, channel.ThawHeight
+//@
+//@ func fetchOpenChannel
+//@   props C01 C02
+//@   loop * havoc
+//@   site call fetchThawHeight: assert arg(0) == chanBucket
+//@   site call fetchChanRevocationState as thaw-height-restored: assert arg(1) == channel && ((ret(IsFrozen) || ret(HasLeaseExpiration)) ==> channel.ThawHeight == retn(fetchThawHeight, 0))
+//@   ensures result1 == nil && (ret(IsFrozen) || ret(HasLeaseExpiration)) ==> called(fetchThawHeight) && retn(fetchThawHeight, 1) == nil
+//@   ensures result1 == nil ==> called(IsFrozen) && (ret(IsFrozen) || called(HasLeaseExpiration))
